@@ -1,7 +1,7 @@
 (* C02, round 3: the dictionary a frame is decoded with WHEN FRAMES NAME A DICTIONARY ID - executable model of
    dctx->ddict, dctx->dictUses, dctx->dictID, dctx->refMultipleDDicts and dctx->ddictSet of a ZSTD_DCtx
-   (lib/decompress/zstd_decompress.c as of /repo 6a84803, i.e. after the fixes 70fa663, a24560c, d50580e, b70602d, 9260ac3,
-   8de9dc9, a891479, d0ddbff, 3de6278, b15fdb6): ZSTD_clearDict, ZSTD_getDDict, ZSTD_DCtx_loadDictionary*, ZSTD_DCtx_refDDict (adds to the set when
+   (lib/decompress/zstd_decompress.c as of /repo 2f289ec, i.e. after the fixes 70fa663, a24560c, d50580e, b70602d, 9260ac3,
+   8de9dc9, a891479, d0ddbff, 3de6278, b15fdb6, b87b37f, 2f289ec): ZSTD_clearDict, ZSTD_getDDict, ZSTD_DCtx_loadDictionary*, ZSTD_DCtx_refDDict (adds to the set when
    ZSTD_d_refMultipleDDicts is on), ZSTD_DCtx_refPrefix, ZSTD_DCtx_setParameter(ZSTD_d_refMultipleDDicts), ZSTD_DCtx_reset,
    ZSTD_DCtx_selectFrameDDict, the dictID check of ZSTD_decodeFrameHeader, the frame start of ZSTD_decompressStream
    (zdss_loadHeader: select, ZSTD_getDDict, ZSTD_decompressBegin_usingDDict, ZSTD_decodeFrameHeader) and the frame loop of
@@ -91,9 +91,9 @@ Inductive iop :=
    accepted (true) or dictionary_wrong (false) *)
 Definition fres := (option D * N * bool)%type.
 
-(* zdss_loadHeader for a Zstandard frame (not taking the single-pass shortcut; with the shortcut the dictionary is fetched by
-   ZSTD_getDDict before the frame is decoded : the same state after an accepted frame).  A single-use dictionary is only looked at
-   (singleUseDictTaken) and marked used once the frame start has succeeded (fix b15fdb6) : a refused frame leaves the prefix pending *)
+(* zdss_loadHeader for a Zstandard frame.  A single-use dictionary is only looked at (singleUseDictTaken) and marked used once the
+   frame start has succeeded (fix b15fdb6 ; the single-pass shortcut does the same since 2f289ec) : a refused frame leaves the prefix
+   pending *)
 Definition frame_step (s : ds) (id : N) : ds * fres :=
   let s1 := select s id in                       (* header complete : ZSTD_DCtx_selectFrameDDict *)
   match ds_uses s1 with
@@ -123,6 +123,8 @@ Fixpoint oneshot_loop (s : ds) (cur : option D) (ids : list N) : ds * list fres 
       else (s1, [(cur', id, false)])
   end.
 
+Definition all_acc (l : list fres) : bool := forallb (fun r => snd r) l.      (* no frame of the call was refused *)
+
 Definition ds_step (s : ds) (op : iop) : ds * list fres :=
   match op with
   | ILoad d => (match d with Some _ => with_dict s d UseIndef true | None => clear_dict s end, [])
@@ -138,7 +140,13 @@ Definition ds_step (s : ds) (op : iop) : ds * list fres :=
   | IResetParams => ({| ds_dict := None; ds_uses := DontUse; ds_local := false; ds_mdd := false; ds_set := []; ds_loaded := ds_loaded s |}, [])
   | IFrame id => let '(s', r) := frame_step s id in (s', [r])
   | ISkippable => (s, [])
-  | IOneShot ids => let '(s1, o) := get_dd s in oneshot_loop s1 o ids
+  | IOneShot ids =>
+      (* ZSTD_decompressDCtx : a single-use dictionary is only looked at, and marked used when the call has succeeded (fix b87b37f) *)
+      match ds_uses s with
+      | UseOnce => let '(s1, l) := oneshot_loop s (ds_dict s) ids in
+                   (if all_acc l then with_dict s1 (ds_dict s1) DontUse (ds_local s1) else s1, l)
+      | _ => let '(s1, o) := get_dd s in oneshot_loop s1 o ids
+      end
   end.
 
 Fixpoint ds_run (s : ds) (ops : list iop) : ds * list fres :=
